@@ -238,6 +238,10 @@ def main(args: Any) -> int:
         from vf import c20_recursion
 
         c20_recursion.run(rep, args.tier)
+    if not getattr(args, "only", None) or "K5" in args.only:
+        from vf import c20_transform
+
+        c20_transform.run(rep, args.tier)
     return rep.finish()
 
 
